@@ -6,7 +6,7 @@ reviewed table entry whose required guard is re-checked on every run, or be a
 listed finding."""
 import os
 import re
-from ..core import norm_refs
+from ..core import norm_refs, norm_arith
 from ..core import (callee_of, expr_walk, expr_str, short, op_place, runtime_targets, immediate_targets, MissingAnchor,
                     unwrap_value, const_str)
 from ..pathq import edge_guards, _reach_without_edge
@@ -55,6 +55,30 @@ PRECOND = {
     'core::str::traits::<impl core::ops::index::Index<I> for str>::index': 'str-index',
     '<arcstr::arc_str::ArcStr as core::ops::index::Index<core::ops::range::RangeFrom<usize>>>::index': 'str-index',
     '<arcstr::arc_str::ArcStr as core::ops::index::Index<core::ops::range::Range<usize>>>::index': 'str-index',
+    '<arcstr::arc_str::ArcStr as core::ops::index::Index<core::ops::range::RangeTo<usize>>>::index': 'str-index',
+    '<arcstr::arc_str::ArcStr as core::ops::index::Index<core::ops::range::RangeInclusive<usize>>>::index': 'str-index',
+    '<arcstr::arc_str::ArcStr as core::ops::index::Index<core::ops::range::RangeToInclusive<usize>>>::index': 'str-index',
+    '<arcstr::substr::Substr as core::ops::index::Index<core::ops::range::Range<usize>>>::index': 'str-index',
+    '<arcstr::substr::Substr as core::ops::index::Index<core::ops::range::RangeFrom<usize>>>::index': 'str-index',
+    '<arcstr::substr::Substr as core::ops::index::Index<core::ops::range::RangeTo<usize>>>::index': 'str-index',
+    'core::slice::<impl [T]>::windows': 'chunks', 'core::slice::<impl [T]>::chunks_exact': 'chunks', 'core::slice::<impl [T]>::chunks_mut': 'chunks',
+    'core::iter::traits::iterator::Iterator::step_by': 'chunks',
+    'core::slice::<impl [T]>::rotate_left': 'range', 'core::slice::<impl [T]>::rotate_right': 'range',
+    'alloc::string::String::insert': 'str-split', 'alloc::string::String::insert_str': 'str-split', 'alloc::string::String::remove': 'str-split',
+    'alloc::string::String::truncate': 'str-split', 'alloc::string::String::split_off': 'str-split', 'alloc::string::String::drain': 'str-split',
+    'alloc::string::String::replace_range': 'str-split',
+    'core::slice::<impl [T]>::split_at_mut': 'range', 'core::slice::<impl [T]>::copy_within': 'range',
+    'core::slice::<impl [T]>::clone_from_slice': 'len-eq', 'core::slice::<impl [T]>::swap_with_slice': 'len-eq',
+    'core::num::<impl usize>::pow': 'overflow-fn', 'core::num::<impl u32>::pow': 'overflow-fn', 'core::num::<impl u64>::pow': 'overflow-fn',
+    'core::num::<impl i64>::abs': 'overflow-fn', 'core::num::<impl i32>::abs': 'overflow-fn',
+    'core::num::<impl usize>::from_str_radix': 'radix', 'core::num::<impl u32>::from_str_radix': 'radix', 'core::num::<impl u64>::from_str_radix': 'radix',
+    'core::num::<impl u8>::from_str_radix': 'radix', 'core::num::<impl i64>::from_str_radix': 'radix',
+    'core::char::methods::<impl char>::is_digit': 'radix',
+    'core::num::<impl i128>::rem_euclid': 'div0', 'core::num::<impl i128>::div_euclid': 'div0',
+    'core::num::<impl usize>::next_power_of_two': 'overflow-fn', 'core::num::<impl usize>::div_ceil': 'div0',
+    'core::num::<impl usize>::next_multiple_of': 'div0', 'core::num::<impl usize>::ilog2': 'overflow-fn', 'core::num::<impl u128>::ilog2': 'overflow-fn',
+    'core::cell::RefCell::<T>::replace': 'borrow', 'core::cell::RefCell::<T>::swap': 'borrow',
+    'core::time::Duration::from_secs_f64': 'overflow-fn', 'std::time::Instant::duration_since': 'overflow-fn',
     'arcstr::arc_str::ArcStr::substr': 'str-index', 'arcstr::substr::Substr::substr': 'str-index',
     '<rpds::vector::Vector<T, P> as core::ops::index::Index<usize>>::index': 'index',
     '<rpds::vector::Vector<T, P> as core::ops::index::IndexMut<usize>>::index_mut': 'index',
@@ -487,7 +511,8 @@ def compute_tainted_params(fx, reach):
 
 
 def sig_of(f, exprs):
-    s = ','.join(re.sub(r'\s+', '', expr_str(strip(norm_refs(e)), -6))[:48] for e in exprs)
+    # local numbers (loop-carried values print as ('cycle', n)) are compiler artefacts: not part of a key
+    s = ','.join(re.sub(r"\('(cycle|undef|unknown)',\d+\)", r'\1', re.sub(r'\s+', '', expr_str(strip(norm_arith(norm_refs(e))), -6)))[:48] for e in exprs)
     return s
 
 
